@@ -27,6 +27,8 @@ theorem leEnc_leDec (b : Bytes) : leEnc b.length (leDec b) = b := by
   have := (beDec_rev_spec' b).2
   simp only [leEnc, leDec, this, List.reverse_reverse]
 
+theorem bind_err' {α β} (e : PyErr) (f : α → PyRes β) : ((Except.error e : PyRes α) >>= f) = .error e := rfl
+
 theorem unpackLE_ok {w : Nat} {b : Bytes} (h : w ≤ b.length) : unpackLE w b = .ok (leDec (b.take w), b.drop w) := by
   simp only [unpackLE, Nat.not_lt.mpr h, ↓reduceIte]
 
@@ -297,7 +299,7 @@ theorem rkrParse_inv (c : CryptoOps) (b : Bytes) (r : RootKeyRecord) (n : Nat) (
     (hhl : lookupOr G.rkrParseHashLen (rkrCurve (leDec (b.take 4))) = .ok hl)
     (hfull : 4 + (if rkrCount (leDec (b.take 4)) > 1 then hl * rkrCount (leDec (b.take 4)) else 0) + hl * 2 ≤ b.length) :
     rkrExport r = .ok (b.take n) ∧ n ≤ b.length ∧ r.flags = leDec (b.take 4) ∧
-    n = 4 + (if rkrCount r.flags > 1 then hl * rkrCount r.flags else 0) + hl * 2 ∧ hl ≤ 64 := by
+    n = 4 + (if rkrCount r.flags > 1 then hl * rkrCount r.flags else 0) + hl * 2 ∧ hl ≤ 64 ∧ r.rootPublicKey.length = hl * 2 ∧ 0 < hl := by
   have p32 : (2 : Nat) ^ 32 = 256 ^ 4 := by decide
   have hb4 : 4 ≤ b.length := by omega
   have h4 : (b.take 4).length = 4 := by simp only [List.length_take]; omega
@@ -333,7 +335,7 @@ theorem rkrParse_inv (c : CryptoOps) (b : Bytes) (r : RootKeyRecord) (n : Nat) (
           simp only [List.length_take, List.length_drop]; omega
         rw [hex, htl, hpk] at hnn
         subst hnn
-        refine ⟨?_, by omega, rfl, by simp only [hn, ↓reduceIte], h64⟩
+        refine ⟨?_, by omega, rfl, by simp only [hn, ↓reduceIte], h64, hpk, hpos⟩
         simp only [rkrExport, packLE_ok 4 _ hfl, bind_ok, pure_eq_ok, hex, leEnc_leDec_w 4 _ h4]
         rw [List.take_add, List.take_add, List.drop_drop]
     · simp only [hn, ↓reduceIte, Nat.add_zero] at h hfull
@@ -348,9 +350,106 @@ theorem rkrParse_inv (c : CryptoOps) (b : Bytes) (r : RootKeyRecord) (n : Nat) (
           simp [Rkht.exportV21]
         rw [hex, hpk] at hnn
         subst hnn
-        refine ⟨?_, by simp only [List.length_nil]; omega, rfl, by simp only [hn, ↓reduceIte, List.length_nil], h64⟩
+        refine ⟨?_, by simp only [List.length_nil]; omega, rfl, by simp only [hn, ↓reduceIte, List.length_nil], h64, hpk, hpos⟩
         simp only [rkrExport, packLE_ok 4 _ hfl, bind_ok, pure_eq_ok, hex, leEnc_leDec_w 4 _ h4, List.length_nil, List.append_nil]
         rw [Nat.add_zero, List.take_add]
+
+/-! ### ISK certificate (certificate block v2.1) -/
+
+/-- `IskCertificate.parse` accepted ARBITRARY bytes in the normal (offset-carrying) format.  If the flags word of the input is the one the
+    constructor recomputes, nothing lies between user data and signature (`signature_offset = 12 + |key| + |user data|`) and the signature has its
+    full, non-zero length, then re-exporting the parsed certificate gives exactly the first `signature_offset + signature_size` input bytes -/
+theorem iskParse_inv (pointOk : Bytes → Bool) (data : Bytes) (sigSize : Nat) (i : IskCert) (h : iskParse pointOk data sigSize = .ok i)
+    (hoff : leDec (data.take 4) % 65536 ≠ G.iskNoOffsetMagic)
+    (hfl : leDec ((data.drop 8).take 4) = i.flags)
+    (hso : leDec (data.take 4) = 12 + i.pubKey.length + i.userData.length)
+    (hsig : i.signature.length = sigSize) (hs0 : 0 < sigSize) :
+    iskExport i = .ok (data.take (leDec (data.take 4) + sigSize)) ∧ i.offsetPresent = true ∧
+      leDec (data.take 4) + sigSize ≤ data.length := by
+  have p32 : (2 : Nat) ^ 32 = 256 ^ 4 := by decide
+  by_cases hl12 : data.length < 12
+  · -- one of the three header words cannot be read
+    exfalso
+    simp only [iskParse] at h
+    by_cases h4 : data.length < 4
+    · simp only [unpackLE, h4, ↓reduceIte, bind_err'] at h; cases h
+    · have h4' : 4 ≤ data.length := by omega
+      simp only [unpackLE_ok h4', bind_ok] at h
+      by_cases h8 : (data.drop 4).length < 4
+      · simp only [unpackLE, h8, ↓reduceIte, bind_err'] at h; cases h
+      · have h8' : 4 ≤ (data.drop 4).length := by omega
+        simp only [unpackLE_ok h8', bind_ok] at h
+        have h12 : ((data.drop 4).drop 4).length < 4 := by simp only [List.length_drop] at *; omega
+        simp only [unpackLE, h12, ↓reduceIte, bind_err'] at h; cases h
+  have hl : 12 ≤ data.length := by omega
+  have u1 : unpackLE 4 data = .ok (leDec (data.take 4), data.drop 4) := unpackLE_ok (by omega)
+  have u2 : unpackLE 4 (data.drop 4) = .ok (leDec ((data.drop 4).take 4), data.drop (4 + 4)) := by
+    rw [unpackLE_ok (by simp only [List.length_drop]; omega), List.drop_drop]
+  have u3 : unpackLE 4 (data.drop (4 + 4)) = .ok (leDec ((data.drop (4 + 4)).take 4), data.drop (4 + 4 + 4)) := by
+    rw [unpackLE_ok (by simp only [List.length_drop]; omega), List.drop_drop]
+  simp only [iskParse, u1, bind_ok, u2, u3, hoff, decide_false, ↓reduceIte, Bool.false_eq_true, Bool.not_false] at h
+  cases hk : lookupOr G.iskParseKeyLen (leDec ((data.drop (4 + 4)).take 4) % 16) with
+  | error e => rw [hk] at h; cases h
+  | ok kl =>
+    rw [hk] at h
+    simp only [bind_ok] at h
+    split at h
+    · cases h
+    · split at h
+      · cases h
+      · simp only [pure_eq_ok, Except.ok.injEq] at h
+        subst h
+        simp only at hfl hso hsig ⊢
+        have e44 : (4 + 4 : Nat) = 8 := rfl
+        simp only [e44] at hfl hso hk ⊢
+        rename_i hne hpt
+        -- the user data is, in both cases, the slice of length `so - (12 + 2 kl)` after the key
+        generalize hso' : leDec (data.take 4) = so at *
+        have hud : ∃ m, (if leDec ((data.drop 8).take 4) &&& G.iskParseUserDataMask ≠ 0 then
+              (data.drop (12 + kl * 2)).take (so - (12 + kl * 2)) else []) = (data.drop (12 + kl * 2)).take m ∧
+            (m = so - (12 + kl * 2) ∨ m = 0) := by
+          split
+          · exact ⟨_, rfl, Or.inl rfl⟩
+          · exact ⟨0, by simp, Or.inr rfl⟩
+        obtain ⟨m, hm, hmv⟩ := hud
+        rw [hm] at hfl hso ⊢
+        simp only [List.length_take, List.length_drop] at hso hsig
+        have hpk : kl * 2 ≤ data.length - 12 := by omega
+        have hml : m = so - (12 + kl * 2) := by omega
+        have hge : 12 + kl * 2 ≤ so := by omega
+        have hend : so + sigSize ≤ data.length := by omega
+        subst hml
+        refine ⟨?_, trivial, hend⟩
+        have hsne : ((data.drop so).take sigSize).isEmpty = false := by
+          cases hh : (data.drop so).take sigSize with
+          | nil =>
+            have := congrArg List.length hh
+            simp only [List.length_take, List.length_drop, List.length_nil] at this
+            omega
+          | cons _ _ => rfl
+        have l4 (off : Nat) (ho : off + 4 ≤ 12) : ((data.drop off).take 4).length = 4 := by
+          simp only [List.length_take, List.length_drop]; omega
+        have l4' : (data.take 4).length = 4 := by simp only [List.length_take]; omega
+        have c1 : leDec ((data.drop 4).take 4) < 256 ^ 4 := leDec_lt_w 4 _ (l4 4 (by omega))
+        have c2 : leDec ((data.drop 8).take 4) < 256 ^ 4 := leDec_lt_w 4 _ (l4 8 (by omega))
+        have c0 : so < 256 ^ 4 := by rw [← hso']; exact leDec_lt_w 4 _ l4'
+        have hoffv : ∀ cns fl, iskSigOffset ⟨true, cns, fl, (data.drop 12).take (kl * 2), (data.drop (12 + kl * 2)).take (so - (12 + kl * 2)),
+            (data.drop so).take sigSize⟩ = so := by
+          intro cns fl
+          simp only [iskSigOffset, ↓reduceIte, List.length_take, List.length_drop]; omega
+        have e0 : leEnc 4 so = data.take 4 := by rw [← hso']; exact leEnc_leDec_w 4 _ l4'
+        simp only [iskExport, hsne, Bool.false_eq_true, ↓reduceIte, iskHeader, hoffv, ← hfl, packLE_ok 4 _ c1, packLE_ok 4 _ c2,
+          packLE_ok 4 _ c0, bind_ok, pure_eq_ok, e0, leEnc_leDec_w 4 _ (l4 4 (by omega)), leEnc_leDec_w 4 _ (l4 8 (by omega))]
+        have s1 : data.take 12 = data.take 4 ++ (data.drop 4).take 4 ++ (data.drop 8).take 4 := by
+          have e : (12 : Nat) = 4 + (4 + 4) := rfl
+          rw [e]; simp only [List.take_add, List.drop_drop, List.append_assoc]
+        have s2 : data.take (12 + kl * 2) = data.take 12 ++ (data.drop 12).take (kl * 2) := List.take_add
+        have s3 : data.take so = data.take (12 + kl * 2) ++ (data.drop (12 + kl * 2)).take (so - (12 + kl * 2)) := by
+          have e : so = (12 + kl * 2) + (so - (12 + kl * 2)) := by omega
+          conv => lhs; rw [e]
+          exact List.take_add
+        have s4 : data.take (so + sigSize) = data.take so ++ (data.drop so).take sigSize := List.take_add
+        rw [s4, s3, s2, s1]
 
 /-! ### certificate block v2.1 without ISK certificate (CA flag set) -/
 
@@ -414,7 +513,7 @@ theorem parseV21Block_ca_inv (c : CryptoOps) (pointOk : Bytes → Bool) (data : 
       obtain ⟨r, n⟩ := q
       have hfull' : 4 + (if rkrCount (leDec ((data.drop 12).take 4)) > 1 then hl * rkrCount (leDec ((data.drop 12).take 4)) else 0) + hl * 2
           ≤ (data.drop 12).length := by simp only [List.length_drop]; omega
-      obtain ⟨hex, hn, hfl, hnv, hsz⟩ := rkrParse_inv c (data.drop 12) r n hr hl hhl hfull'
+      obtain ⟨hex, hn, hfl, hnv, hsz, _, _⟩ := rkrParse_inv c (data.drop 12) r n hr hl hhl hfull'
       rw [hr] at h
       simp only [bind_ok] at h
       have hca' : rkrCa r.flags = true := by rw [hfl]; exact hca
@@ -453,5 +552,85 @@ theorem parseV21Block_ca_inv (c : CryptoOps) (pointOk : Bytes → Bool) (data : 
       rw [hmm]
       have e2 : (12 : Nat) + n = 8 + (4 + n) := by omega
       rw [e2, List.take_add, List.take_add, List.drop_drop, List.append_assoc]
+
+/-- `CertBlockV21.parse` accepted ARBITRARY bytes (shorter than 4 GiB) whose root key record is complete and does NOT carry the CA flag, so an
+    ISK certificate follows.  If that certificate is in canonical form (`iskParse_inv`: normal format, flags word as recomputed, no gap before the
+    signature, full-length signature), re-exporting the block gives `chdr ‖ minor ‖ major ‖ size ‖ record ‖ certificate` with the size word
+    recomputed - the first `12 + n + m` input bytes when the input's size word had that value -/
+theorem parseV21Block_isk_inv (c : CryptoOps) (pointOk : Bytes → Bool) (data : Bytes) (cb : CertBlockV21)
+    (h : parseV21Block c pointOk data = .ok cb) (hca : rkrCa (leDec ((data.drop 12).take 4)) = false) (hl : Nat)
+    (hhl : lookupOr G.rkrParseHashLen (rkrCurve (leDec ((data.drop 12).take 4))) = .ok hl)
+    (hfull : 12 + 4 + (if rkrCount (leDec ((data.drop 12).take 4)) > 1 then hl * rkrCount (leDec ((data.drop 12).take 4)) else 0) + hl * 2
+      ≤ data.length) (hdl : data.length < 2 ^ 32) :
+    ∃ n i, cb.isk = some i ∧ n = 4 + (if rkrCount cb.rkr.flags > 1 then hl * rkrCount cb.rkr.flags else 0) + hl * 2 ∧
+      iskParse pointOk (data.drop (12 + n)) (hl * 2) = .ok i ∧
+      (leDec ((data.drop (12 + n)).take 4) % 65536 ≠ G.iskNoOffsetMagic →
+       leDec (((data.drop (12 + n)).drop 8).take 4) = i.flags →
+       leDec ((data.drop (12 + n)).take 4) = 12 + i.pubKey.length + i.userData.length →
+       i.signature.length = hl * 2 →
+        exportV21Block cb = .ok (G.cbV21Magic ++ leEnc 2 cb.minor ++ leEnc 2 cb.major ++
+          leEnc 4 (12 + n + (leDec ((data.drop (12 + n)).take 4) + hl * 2)) ++
+          (data.drop 12).take (n + (leDec ((data.drop (12 + n)).take 4) + hl * 2))) ∧
+        (leDec ((data.drop 8).take 4) = 12 + n + (leDec ((data.drop (12 + n)).take 4) + hl * 2) →
+          exportV21Block cb = .ok (data.take (12 + n + (leDec ((data.drop (12 + n)).take 4) + hl * 2))))) := by
+  cases hh : headerV21Parse data with
+  | error e => simp only [parseV21Block, hh] at h; cases h
+  | ok p =>
+    obtain ⟨major, minor, size⟩ := p
+    obtain ⟨h12, htake, b1, b2, b3⟩ := headerV21Parse_inv data major minor size hh
+    simp only [parseV21Block, hh, bind_ok] at h
+    have e12 : headerSizeV21 = 12 := rfl
+    rw [e12] at h
+    cases hr : rkrParse c (data.drop 12) with
+    | error e => rw [hr] at h; cases h
+    | ok q =>
+      obtain ⟨r, n⟩ := q
+      have hfull' : 4 + (if rkrCount (leDec ((data.drop 12).take 4)) > 1 then hl * rkrCount (leDec ((data.drop 12).take 4)) else 0) + hl * 2
+          ≤ (data.drop 12).length := by simp only [List.length_drop]; omega
+      obtain ⟨hex, hn, hfl, hnv, hsz, hpkl, hpos⟩ := rkrParse_inv c (data.drop 12) r n hr hl hhl hfull'
+      rw [hr] at h
+      simp only [bind_ok] at h
+      have hca' : rkrCa r.flags = false := by rw [hfl]; exact hca
+      simp only [hca', Bool.false_eq_true, ↓reduceIte, hpkl] at h
+      cases hi : iskParse pointOk (data.drop (12 + n)) (hl * 2) with
+      | error e => rw [hi] at h; cases h
+      | ok i =>
+        rw [hi] at h
+        simp only [bind_ok, pure_eq_ok, Except.ok.injEq] at h
+        subst h
+        refine ⟨n, i, rfl, hnv, hi, fun k1 k2 k3 k4 => ?_⟩
+        obtain ⟨hiex, _, hiend⟩ := iskParse_inv pointOk (data.drop (12 + n)) (hl * 2) i hi k1 k2 k3 k4 (by omega)
+        generalize hso : leDec ((data.drop (12 + n)).take 4) = so at *
+        simp only [List.length_drop] at hiend hn
+        have hnl : ((data.drop 12).take n).length = n := by simp only [List.length_take, List.length_drop]; omega
+        have hil : ((data.drop (12 + n)).take (so + hl * 2)).length = so + hl * 2 := by
+          simp only [List.length_take, List.length_drop]; omega
+        have p32 : (2 : Nat) ^ 32 = 256 ^ 4 := by decide
+        have p16 : (65536 : Nat) = 256 ^ 2 := by decide
+        have k1' := packLE_ok 2 minor (by rw [← p16]; exact b2)
+        have k2' := packLE_ok 2 major (by rw [← p16]; exact b1)
+        have k3' := packLE_ok 4 (12 + n + (so + hl * 2)) (by omega)
+        have hexp : exportV21Block ⟨major, minor, r, some i⟩ =
+            .ok (G.cbV21Magic ++ leEnc 2 minor ++ leEnc 2 major ++ leEnc 4 (12 + n + (so + hl * 2)) ++ (data.drop 12).take (n + (so + hl * 2))) := by
+          have tk : (data.drop 12).take (n + (so + hl * 2)) = (data.drop 12).take n ++ (data.drop (12 + n)).take (so + hl * 2) := by
+            rw [List.take_add, List.drop_drop]
+          simp only [exportV21Block, hex, bind_ok, pure_eq_ok, hiex, hnl, hil, headerV21Export, e12, k1', k2', k3', tk, List.append_assoc]
+        refine ⟨hexp, fun hsize => ?_⟩
+        have hw : leEnc 4 (12 + n + (so + hl * 2)) = (data.drop 8).take 4 := by
+          rw [← hsize]; exact leEnc_leDec_w 4 _ (by simp only [List.length_take, List.length_drop]; omega)
+        rw [hexp, hw]
+        have hmm : G.cbV21Magic ++ leEnc 2 minor ++ leEnc 2 major = data.take 8 := by
+          have := congrArg (List.take 8) htake
+          rw [List.take_take] at this
+          have hlen : (G.cbV21Magic ++ leEnc 2 minor ++ leEnc 2 major).length = 8 := by
+            have : G.cbV21Magic.length = 4 := rfl
+            simp only [List.length_append, leEnc_len, this]
+          rw [List.take_left' hlen] at this
+          exact this.symm
+        rw [hmm]
+        have e2 : 12 + n + (so + hl * 2) = 8 + (4 + (n + (so + hl * 2))) := by omega
+        have t1 : data.take (8 + (4 + (n + (so + hl * 2)))) = data.take 8 ++ ((data.drop 8).take 4 ++ (data.drop 12).take (n + (so + hl * 2))) := by
+          rw [List.take_add, List.take_add, List.drop_drop]
+        rw [e2, t1, List.append_assoc]
 
 end SpsdkVerif.CertBlock
